@@ -1160,7 +1160,10 @@ func (c *Conn) verifyServerCertificate(certificates [][]byte) error {
 			}
 
 			if len(c.config.InsecureServerNameToVerify) == 0 {
-				opts.DNSName = c.config.ServerName
+				// ECH was rejected: the certificate must be valid for the name the
+				// server actually saw, i.e. the public name of the outer ClientHello
+				// (draft-ietf-tls-esni-17, Section 6.1.6), not Config.ServerName.
+				opts.DNSName = c.serverName
 			} else if c.config.InsecureServerNameToVerify != "*" {
 				opts.DNSName = c.config.InsecureServerNameToVerify
 			}
